@@ -29,7 +29,7 @@ class RerunScenario(cmdscn.CmdScenario):
                          '%s at %s: %s' % (cls, where, text))
         if tag in ('rerun', 'rerun_noreset', 'skip') \
                 and not ctx.new_exceptions:
-            tname = env.W.extra['cmds'][-1][1]
+            tname = env.W.extra['cmds'][-1][1].split('.')[0]
             ts = [t for t in post['task_executions_v2']
                   if t['name'] == tname]
             ws = {w['id']: w for w in post['workflow_executions_v2']}
@@ -101,6 +101,61 @@ class RerunScenario(cmdscn.CmdScenario):
         return key, v
 
 
+from checks.c07 import ItemsScenario, make_prog   # noqa: E402
+
+
+class SubRerunScenario(ItemsScenario):
+    """Failed tasks inside the sub-workflows of a with-items task are rerun
+    (several reruns in flight): the parent task must wait for every
+    re-executed child and the run must end as if the children had
+    succeeded the first time."""
+
+    def spec(self):
+        return ('checks.c12', 'SubRerunScenario', self.kwargs())
+
+    def check_step(self, pre, post, choice, ctx):
+        v = super(SubRerunScenario, self).check_step(pre, post, choice, ctx)
+        tag = getattr(choice, 'tag', None) or ''
+        if tag == 'rerun' and not ctx.new_exceptions:
+            ws = {w['id']: w for w in post['workflow_executions_v2']}
+            tasks = {t['id']: t for t in post['task_executions_v2']}
+            root = [w for w in ws.values() if not w['task_execution_id']][0]
+            if root['state'] != 'RUNNING':
+                v.append('after the rerun of a task inside a sub-workflow '
+                         'the root execution is %s, not RUNNING'
+                         % root['state'])
+            a = [t for t in tasks.values() if t['name'] == 'a'
+                 and t['workflow_execution_id'] == root['id']]
+            if a and a[0]['state'] != 'RUNNING':
+                v.append('after the rerun of a task inside a sub-workflow '
+                         'the parent task a is %s, not RUNNING'
+                         % a[0]['state'])
+        return v
+
+    def externals(self):
+        done = set(c[1] for c in env.W.extra.get('cmds', []))
+        return [c for c in super(SubRerunScenario, self).externals()
+                if c.label.split(':', 2)[-1] not in done]
+
+    def check_terminal(self, snap, ctx):
+        key, v = super(SubRerunScenario, self).check_terminal(snap, ctx)
+        n_rerun = len(set(c[1] for c in env.W.extra.get('cmds', [])
+                          if c[0] == 'rerun'))
+        root = [w for w in snap['workflow_executions_v2']
+                if not w['task_execution_id']][0]
+        if n_rerun == getattr(self, 'items_to_rerun', len(self.items)) \
+                and 'rerun-before' not in \
+                ' '.join(env.W.extra.get('hist', [])):
+            if root['state'] != 'SUCCESS':
+                v.append('every failed child task was rerun successfully but '
+                         'the root execution ended %s' % root['state'])
+            bs = [t for t in snap['task_executions_v2'] if t['name'] == 'b']
+            if len(bs) != 1:
+                v.append('successor b of the with-items task exists %d '
+                         'times after the reruns' % len(bs))
+        return key, v
+
+
 def programs():
     T, direct = wfgen.T, wfgen.direct
     C = wfgen.curated()
@@ -153,6 +208,21 @@ def scenarios(tier):
                             if d.get('key', t) == fk])
                     jobs.append((scn, 0 if quick else 1,
                                  40 if quick else 1200, 1))
+    # reruns inside the sub-workflows of a with-items task, several in flight
+    prog = make_prog(2, None, sub=True)
+    prog['tasks']['a'].pop('on-complete')
+    prog['tasks']['a']['on-success'] = ['b']
+    res = {'i0': ['E', 'S'], 'i1': ['E', 'S'], 'b': ['S']}
+    scn = SubRerunScenario('items_subwf/rerun_children/EE', prog,
+                           items=['i0', 'i1'], results=res, menu=['rerun'],
+                           max_cmds=2, only_tasks=['s'], compare_ctx=False)
+    jobs.append((scn, 0 if quick else 1, 60 if quick else 1200, 1))
+    res = {'i0': ['S'], 'i1': ['E', 'S'], 'b': ['S']}
+    scn = SubRerunScenario('items_subwf/rerun_children/SE', prog,
+                           items=['i0', 'i1'], results=res, menu=['rerun'],
+                           max_cmds=1, only_tasks=['s'], compare_ctx=False)
+    scn.items_to_rerun = 1
+    jobs.append((scn, 1 if quick else 2, 60 if quick else 1200, 1))
     return jobs
 
 
